@@ -346,7 +346,9 @@ fn bfs(max_depth: usize, acc: &mut Acc) -> Explorer {
                         for op in OPS {
                             let mut h = frontier[i].clone();
                             h.push(op);
-                            a.index = (depth as u64) << 32 | i as u64;
+                            // address the case like the index-addressed families do, so that --replay finds it
+                            a.family = format!("histories-{}", h.len());
+                            a.index = h.iter().fold(0u64, |r, o| r * OPS.len() as u64 + OPS.iter().position(|x| x == o).unwrap() as u64);
                             let (abs, mut real, execs) = replay(&h);
                             let n = check_state(&h, &abs, &mut real, &execs, &mut a);
                             a.evals(n);
@@ -473,7 +475,8 @@ fn schedule_audit() -> Vec<String> {
 }
 
 pub fn replay_families(t: Tier) -> Vec<Family<'static>> {
-    let maxlen = t.pick(4, 5);
+    // the search reaches depth 6 / 12: every history it can report is addressable
+    let maxlen = t.pick(6, 12);
     (1..=maxlen).map(|l| Family::new(&format!("histories-{}", l), (OPS.len() as u64).pow(l as u32), move |i, a| run_history(l, i, a))).collect()
 }
 
@@ -493,7 +496,7 @@ pub fn run(t: Tier) -> i32 {
     rep.family_sizes.push(("bfs".into(), ex.transitions));
     rep.acc.merge(acc);
     let mut traces = ex.transitions;
-    for f in replay_families(t) {
+    for f in replay_families(t).into_iter().take(t.pick(4, 5)) {
         traces += f.size;
         rep.run_family(f);
     }
